@@ -241,6 +241,15 @@ var shapes = []shape{
 		Edges: []fakedb.EdgeSpec{
 			ed(1, 1, 2, "R", "ue1", nil), ed(2, 2, 1, "R", "ue2", nil),
 			ed(3, 1, 2, "S", "ue3", map[string]any{"p": "q"}), ed(4, 1, 1, "T", "ue4", nil)}}}}},
+	// two graphs of the same outline (same counts per phase): an entry or a fragment of one graph fits the other
+	// graph's bookkeeping, only the node ids it mentions belong elsewhere
+	{name: "twins", shard: 100, spec: fakedb.Spec{Graphs: []fakedb.GraphSpec{
+		{Name: "left",
+			Nodes: []fakedb.NodeSpec{nd(1, "l1", []string{"A"}, nil), nd(2, "l2", []string{"B"}, nil)},
+			Edges: []fakedb.EdgeSpec{ed(1, 1, 2, "R", "le1", nil)}},
+		{Name: "right",
+			Nodes: []fakedb.NodeSpec{nd(11, "r11", []string{"A"}, nil), nd(12, "r12", []string{"B"}, nil)},
+			Edges: []fakedb.EdgeSpec{ed(5, 11, 12, "R", "re5", nil)}}}}},
 }
 
 var codecs = []string{"none", "gzip", "zstd"}
@@ -725,6 +734,10 @@ const (
 	lenient    expectation = iota // success tolerated only with an identical result
 	mustReject                    // any success is a violation
 	mustAccept                    // unmodified input: failure is a harness error / violation
+	// selfConsistent: a whole manifest entry was exchanged for another genuine one (path, hash, sizes and count move
+	// together). A plain directory's manifest is not authenticated, so such a dump cannot be told from a genuine one
+	// and a success says nothing; what the property still demands is that a failure comes before the first write.
+	selfConsistent
 )
 
 // judgeLoad runs Load into an empty fakedb and applies the Load half of the oracle.
@@ -747,6 +760,9 @@ func judgeLoad(fx *fixture, what string, opts retriever.LoadOptions, exp expecta
 	}
 	if exp == mustReject {
 		return "", "", fmt.Errorf("%s: Load succeeded (%d writes) although %s", what, db.WriteCount(), why)
+	}
+	if exp == selfConsistent {
+		return "accepted", "", nil
 	}
 	want := map[string]bool{}
 	for _, g := range fx.graphs {
